@@ -14,6 +14,14 @@ ORG = {"low": (0x008000, 0x01FFFD, 0x028000), "low2": (0x808000, 0x81FFFD, 0x828
 DEFS = [{}, {"DEFV": 0x1234}, {"DEFV": 0x8001, "DEFF": 1}]
 
 
+def label_names(ndef: int, k: int) -> list[str]:
+    """the label definitions the template makes outside loop iterations, with multiplicity (by construction)"""
+    names = ["start"] + (["flagged"] if ndef >= 2 else []) + ["local", "local"]
+    names += {1: [], 2: ["entry"], 3: ["inner"], 0: []}[k % 4]
+    names += ["edge", "crossed"] + (["ram_code"] if k % 2 else []) + ["after"]
+    return sorted(names)
+
+
 def program(mapping: str, ndef: int, k: int) -> str:
     a, edge, other = ORG[mapping]
     lines = [f"*=0x{a:06x}", "start:", "lda.w #0x1234", "sta.l start"]
@@ -76,6 +84,7 @@ def run(ctx) -> None:
                 if m:
                     ents.append([m.group(3), int(m.group(1), 16), int(m.group(2), 16)])
             rec["sym"] = ents
+            rec["names"] = label_names(pt["ndef"], k)
         recs.append(rec)
         ctx.evaluations += 1
         ctx.nontrivial.add((pt["format"], pt["mapping"], pt["header"], pt["ndef"], pt["entry"], k))
